@@ -3,7 +3,8 @@ package main
 // C07, all writers of the resume position (lean/GunYu/Model/PositionWriters.lean): digests of the
 // functions the model transcribes by hand and of the control flow its history grammar takes as a
 // premise (a snapshot offset is stored only after ResetStartPoint completed in the same process;
-// SetRunId completes before Send). Log and metric statements are dropped (c01Digest).
+// SetRunId completes before Send; syncMeta: ResetStartPoint before SetRunId, the reader is opened at
+// the offset the output reported: run / fetchInput / readChannel). Log and metric statements are dropped (c01Digest).
 
 func genC07() {
 	before, _ := facts["sender_src"].(map[string]string)
@@ -14,7 +15,7 @@ func genC07() {
 	facts["sender_src"] = map[string]string{}
 	c01Digest("syncer/output.go", "setCheckpoint", "SetRunId", "ResetStartPoint")
 	c01Digest("pkg/redis/checkpoint/checkpoint.go", "SetCheckpoint", "UpdateCheckpoint", "DelCheckpoint", "DelCheckpoints", "GetCheckpointHash")
-	c01Digest("syncer/input.go", "sendOutput")
+	c01Digest("syncer/input.go", "sendOutput", "syncMeta", "fetchInput", "run", "readChannel")
 	c01Digest("syncer/syncer.go", "updateCheckpoint")
 	facts["position_writers_src"] = facts["sender_src"]
 	facts["sender_src"] = saved
